@@ -883,3 +883,12 @@ def rank_gf(rows):
         rk += 1
         if rk == len(M): break
     return rk
+
+
+
+def float_eval(node, env, seed=0):
+    """floating-point value of an extracted expression at the given atom values (masks decided by the actual comparison); atoms not in env
+    get a reproducible value in (0.3, 1.7).  Used only to exhibit concrete witnesses (a violation found this way names its inputs)."""
+    pt = Point(seed)
+    pt.fatom = {k: complex(v) for k, v in env.items()}
+    return pt.fev(node)
